@@ -915,15 +915,15 @@ c14_bufc!(c14_longl_t1_139, LongWithLongChecksum, 69, 140, 2, 139, 148);
 c14_bufc!(c14_longl_t1_140, LongWithLongChecksum, 69, 140, 2, 140, 148);
 //@ h=c14_longl_t1_204 props=C14 cfgs=K1 tier=t t=900 | funcs: LongWithLongChecksum::store_into_str_bytes(WithVersion) | bound: all values x arbitrary prior content, buffer length 204 (concrete)
 c14_bufc!(c14_longl_t1_204, LongWithLongChecksum, 69, 140, 2, 204, 148);
-//@ h=c14_short_bin props=C14 cfgs=K1 tier=q t=900 | funcs: Short::store_into_bytes | bound: all values x ALL buffer lengths 0..=N+64 (symbolic length) x arbitrary prior content
+//@ h=c14_short_bin props=C14,C17 cfgs=K1 tier=q t=900 | funcs: Short::store_into_bytes | bound: all values x ALL buffer lengths 0..=N+64 (symbolic length) x arbitrary prior content
 c14_buf!(c14_short_bin, Short, 15, 32, 0, 36);
-//@ h=c14_short_hex props=C14 cfgs=K3 tier=q t=900 | funcs: Short::store_into_str_bytes(Empty) with the nibble-table encoders (opt-low-memory-hex-str-encode-min-table) | bound: all values x all buffer lengths 0..=N+64 (symbolic) x arbitrary prior content
+//@ h=c14_short_hex props=C14,C17 cfgs=K3 tier=q t=900 | funcs: Short::store_into_str_bytes(Empty) with the nibble-table encoders (opt-low-memory-hex-str-encode-min-table) | bound: all values x all buffer lengths 0..=N+64 (symbolic) x arbitrary prior content
 c14_buf!(c14_short_hex, Short, 15, 32, 1, 36);
-//@ h=c14_short_t1 props=C14 cfgs=K3 tier=q t=900 | funcs: Short::store_into_str_bytes(WithVersion), nibble-table encoders | bound: all values x all buffer lengths 0..=N+64 (symbolic) x arbitrary prior content
+//@ h=c14_short_t1 props=C14,C17 cfgs=K3 tier=q t=900 | funcs: Short::store_into_str_bytes(WithVersion), nibble-table encoders | bound: all values x all buffer lengths 0..=N+64 (symbolic) x arbitrary prior content
 c14_buf!(c14_short_t1, Short, 15, 32, 2, 36);
-//@ h=c14_normall_bin props=C14 cfgs=K1 tier=q t=900 | funcs: NormalWithLongChecksum::store_into_bytes | bound: all values x all buffer lengths (symbolic)
+//@ h=c14_normall_bin props=C14,C17 cfgs=K1 tier=q t=900 | funcs: NormalWithLongChecksum::store_into_bytes | bound: all values x all buffer lengths (symbolic)
 c14_buf!(c14_normall_bin, NormalWithLongChecksum, 37, 76, 0, 80);
-//@ h=c14_longl_bin props=C14 cfgs=K1 tier=q t=900 | funcs: LongWithLongChecksum::store_into_bytes | bound: all values x all buffer lengths (symbolic)
+//@ h=c14_longl_bin props=C14,C17 cfgs=K1 tier=q t=900 | funcs: LongWithLongChecksum::store_into_bytes | bound: all values x all buffer lengths (symbolic)
 c14_buf!(c14_longl_bin, LongWithLongChecksum, 69, 140, 0, 144);
 //@ h=c14_normal_t1 props=C14 cfgs=K3 tier=t t=1800 | funcs: Normal::store_into_str_bytes(WithVersion), nibble-table encoders | bound: all values x all buffer lengths (symbolic)
 c14_buf!(c14_normal_t1, Normal, 35, 72, 2, 76);
